@@ -327,9 +327,10 @@ class Ctx:
         return self.tier == 'quick'
 
     def n(self, quick: int, thorough: int) -> int:
-        if self.quick and self.escalate and thorough > quick:
-            # a modelled source file changed since the model was aligned: spend up to 3x the quick budget
-            return min(thorough, 3 * quick)
+        if self.quick and self.escalate and thorough > quick and self.elapsed() < 45:
+            # a modelled source file changed since the model was aligned: spend a larger quick budget
+            # (factor 1.5 per family, only during the first 45 s of the run, so the check stays a quick one)
+            return min(thorough, quick + quick // 2)
         return quick if self.quick else thorough
 
     def elapsed(self) -> float:
